@@ -90,6 +90,8 @@ class Sess:
         self.client_sent = []            # see Exec.post / ws_send
         self.causes = []                 # end causes injected: dict(t, cause, settled)
         self.saved = None                # user session data the model believes is saved
+        self.jsonp = None                # JSONP index this polling client uses (None: plain)
+        self.accept_encoding = None      # Accept-Encoding this polling client sends
         self._cursor = {}                # id(conn) -> frames processed
 
     def label(self):
@@ -233,10 +235,25 @@ class Exec:
                 s._cursor[k] = len(conn.sent)
 
     def _harvest_body(self, s, r, via):
+        raw = r.resp_body or b''
+        enc = r.header('Content-Encoding') if hasattr(r, 'header') else None
+        if enc:
+            import gzip
+            import zlib
+            try:
+                raw = gzip.decompress(raw) if enc == 'gzip' else zlib.decompress(raw)
+            except Exception:       # noqa  (a mislabelled body: C19's business; nothing readable)
+                raw = None
         try:
-            text = (r.resp_body or b'').decode('utf-8')
+            text = raw.decode('utf-8') if raw is not None else None
         except UnicodeDecodeError:
             text = None
+        if text is not None and s.jsonp is not None and getattr(r, 'method', 'GET') == 'GET' \
+                and ('j=' in r.query):
+            try:
+                idx, text = rm.parse_jsonp(text)
+            except Exception:       # noqa  (not a JSONP statement: nothing readable)
+                text = None
         r.packets = parse_payload(text) if text is not None else [(None, r.resp_body, None)]
         for pt, payload, raw in r.packets:
             self._got(s, r.t_end, via, pt, payload, r)
@@ -334,8 +351,9 @@ class Exec:
         return 'open' if fr in ([], ['2probe']) else 'none'
 
     def _start_poll(self, s, immediate=True, headers=(), query=None):
-        r = self.world.http('GET', query or 'transport=polling&EIO=4&sid=' + self.sid_of(s),
-                            headers=list(headers))
+        r = self.world.http('GET', query or ('transport=polling&EIO=4&sid=' + self.sid_of(s) +
+                                             self._jq(s)),
+                            headers=list(headers) + self._ae(s))
         r.role, r.sess = 'poll', s
         r._step = len(self.actions)
         r._immediate = immediate
@@ -346,10 +364,22 @@ class Exec:
         s.polls.append(r)
         return r
 
-    def _post_raw(self, s, body, declared=None, sid=None):
-        r = self.world.http('POST', 'transport=polling&EIO=4&sid=' + (sid or self.sid_of(s) or 'x'),
+    def wire_body(self, s, body, wrap=True):
+        """What a polling client puts into the POST: the payload itself, or for a JSONP client
+        the form field d=<payload> (percent-encoded)."""
+        if s.jsonp is None or not wrap:
+            return body
+        import urllib.parse
+        return b'd=' + urllib.parse.quote_from_bytes(body, safe='').encode('ascii')
+
+    def _post_raw(self, s, body, declared=None, sid=None, wrap=True):
+        jsonp = s.jsonp is not None and wrap
+        body = self.wire_body(s, body, wrap)
+        r = self.world.http('POST', 'transport=polling&EIO=4&sid=' + (sid or self.sid_of(s) or 'x')
+                            + (self._jq(s) if jsonp else ''),
                             body=body, declared=declared,
-                            headers=[('Content-Type', 'text/plain;charset=UTF-8')])
+                            headers=[('Content-Type', 'application/x-www-form-urlencoded' if jsonp
+                                      else 'text/plain;charset=UTF-8')])
         r.role, r.sess = 'post', s
         s.posts.append(r)
         return r
@@ -365,7 +395,8 @@ class Exec:
             r = self._post_raw(s, b'3')
             r._pong_t = self.now
             s.client_sent.append({'t': self.now, 'via': 'post', 'conn': None,
-                                  'pkts': [(3, None)], 'raw': '3', 'req': r})
+                                  'pkts': [(3, None)],
+                                  'raw': self.wire_body(s, b'3').decode('ascii'), 'req': r})
 
     # -- the action interpreter ------------------------------------------------------------------------
     def do(self, a):
@@ -453,8 +484,17 @@ class Exec:
             s.open_conn.role, s.open_conn.sess = 'open', s
             s.main_ws = s.open_conn
         else:
-            s.open_req = self.world.http('GET', 'transport=polling&EIO=4', headers=hdrs)
+            s.jsonp = a.get('jsonp')
+            s.accept_encoding = a.get('accept_encoding')
+            s.open_req = self.world.http('GET', 'transport=polling&EIO=4' + self._jq(s),
+                                         headers=hdrs + self._ae(s))
             s.open_req.role, s.open_req.sess = 'open', s
+
+    def _jq(self, s):
+        return '' if s.jsonp is None else '&j=%d' % s.jsonp
+
+    def _ae(self, s):
+        return [] if not s.accept_encoding else [('Accept-Encoding', s.accept_encoding)]
 
     def op_poll(self, a):
         s = self.sess(a['s'])
@@ -476,11 +516,15 @@ class Exec:
             raw = SEP.join(encode_client_packet(t, d, True) for t, d in pkts)
             body = raw.encode('utf-8')
         declared = None
+        wrap = pkts is not None         # (raw bodies go out as they are)
+        wire = self.wire_body(s, body, wrap)
         if a.get('declared_delta'):
-            declared = max(0, len(body) + a['declared_delta'])
-        r = self._post_raw(s, body, declared)
+            declared = max(0, len(wire) + a['declared_delta'])
+        r = self._post_raw(s, body, declared, wrap=wrap)
+        if wire is not body:
+            raw = wire.decode('ascii')      # the model reads what is on the wire (d=<quoted>)
         s.client_sent.append({'t': self.now, 'via': 'post', 'conn': None, 'pkts': pkts,
-                              'raw': raw, 'req': r, 'declared': declared, 'size': len(body),
+                              'raw': raw, 'req': r, 'declared': declared, 'size': len(wire),
                               'det': self._det, 'step': len(self.actions)})
         if pkts and any(t == 3 for t, _ in pkts):
             s.ping_pending = False
@@ -488,7 +532,7 @@ class Exec:
             # declared, within the limits, nothing before it that ends the processing
             k = [t for t, _ in pkts].index(3)
             limit = self.config.get('max_http_buffer_size', 1000000)
-            if declared is None and len(body) <= limit and len(pkts) <= 16 and \
+            if declared is None and len(wire) <= limit and len(pkts) <= 16 and \
                     all(t in (3, 4, 5) for t, _ in pkts[:k]):
                 s.pongs.append(self.now)
                 r._pong_t = self.now        # withdrawn in collect() if the POST is refused
@@ -806,6 +850,8 @@ def config_st(profile):
         'async_handlers': profile.get('async_handlers', st.booleans()),
         'monitor_clients': profile.get('monitor_clients', st.sampled_from([True, True, False])),
         'http_compression': profile.get('http_compression', st.just(False)),
+        **({'compression_threshold': profile['compression_threshold']}
+           if 'compression_threshold' in profile else {}),
     })
 
 
@@ -908,6 +954,13 @@ class Drawer:
         oc = d(st.sampled_from(self.profile.get('connect_outcomes', [None])))
         if oc is not None:
             a['connect'] = oc
+        fl = self.profile.get('client_flavours')
+        if fl and tr == 'polling':
+            k = d(st.sampled_from(fl))
+            if k in ('jsonp', 'jsonp+gzip'):
+                a['jsonp'] = d(st.sampled_from([0, 1, 7, 233]))
+            if k in ('gzip', 'jsonp+gzip'):
+                a['accept_encoding'] = d(st.sampled_from(['gzip', 'deflate', 'gzip, deflate']))
         return a
 
     def a_poll(self):
